@@ -113,6 +113,9 @@ def key(t):
     return "%s[%s]%s" % (kind, role, "(" + " ".join(key(c) for c in ch) + ")" if ch else "")
 
 
+BALLAST = [False]  # see render(): every function also owns an unrelated captured variable
+
+
 def gen(t, path, ind, out):
     kind, role, ch = t
     p = "    " * ind
@@ -120,6 +123,15 @@ def gen(t, path, ind, out):
 
     def emit(s):
         out.append(p + s)
+
+    if kind == "F" and BALLAST[0]:
+        # an unrelated variable of this function that an inner function rebinds: the function needs its own storage for
+        # captured variables, next to whatever the scopes around and inside it need for the tracked name
+        emit("own_ = 0")
+        emit("def bump_():")
+        emit("    nonlocal own_")
+        emit("    own_ += 1")
+        emit("bump_()")
 
     if role in ("gassign", "gread", "gaug"):
         emit("global x")
@@ -257,9 +269,13 @@ def expr(t, path):
     return "%s%s for q in [0]%s" % (o, body, c)
 
 
-def render(t):
+def render(t, ballast=False):
     out = []
-    gen(t, "M", 0, out)
+    BALLAST[0] = ballast
+    try:
+        gen(t, "M", 0, out)
+    finally:
+        BALLAST[0] = False
     return "\n".join(out) + "\n"
 
 
